@@ -143,36 +143,43 @@ def one_case(rng, res, intern, stream, root, label):
   truth = independent_paths(root)
   problems = []
   res.evaluations += 1
-  # ---- the traversals
-  basic = list(daglish.iterate(root, memoized=False))
-  memo_ni = list(daglish.iterate(root, memoized=True, memoize_internables=False))
-  memo = list(daglish.iterate(root, memoized=True))
-  by_id = daglish.collect_paths_by_id(root, memoizable_only=True)
-  legacy_by_id = daglish_legacy.collect_paths_by_id(root, memoizable_only=True)
-  legacy_pre = []
-  def tw(path, value):
-    legacy_pre.append((value, path))
-    return (yield)
-  daglish_legacy.traverse_with_path(tw, root)
-  all_paths_obs = []
-  def visit(value, state):
-    if common.own_memoizable(value):
-      all_paths_obs.append((value, state.current_path, state.get_all_paths()))
-    else:
-      all_paths_obs.append((value, state.current_path, state.get_all_paths()))
-    for _ in state.yield_map_child_values(value, ignore_leaves=True):
-      pass
-  trav = daglish.BasicTraversal(visit, root)
-  visit(root, trav.initial_state())
-  rebuilt = daglish.MemoizedTraversal.run(lambda v, s: s.map_children(v), root)
-  def ident(paths, value):
-    return (yield)
-  legacy_rebuilt = daglish_legacy.memoized_traverse(ident, root)
-  legacy_all = []
-  def twa(all_paths, current_path, value):
-    legacy_all.append((value, current_path, list(all_paths)))
-    return (yield)
-  daglish_legacy.traverse_with_all_paths(twa, root)
+  # ---- the traversals (an acyclic structure must be traversable by every entry point)
+  try:
+    basic = list(daglish.iterate(root, memoized=False))
+    memo_ni = list(daglish.iterate(root, memoized=True, memoize_internables=False))
+    memo = list(daglish.iterate(root, memoized=True))
+    by_id = daglish.collect_paths_by_id(root, memoizable_only=True)
+    legacy_by_id = daglish_legacy.collect_paths_by_id(root, memoizable_only=True)
+    legacy_pre = []
+    def tw(path, value):
+      legacy_pre.append((value, path))
+      return (yield)
+    daglish_legacy.traverse_with_path(tw, root)
+    all_paths_obs = []
+    def visit(value, state):
+      if common.own_memoizable(value):
+        all_paths_obs.append((value, state.current_path, state.get_all_paths()))
+      else:
+        all_paths_obs.append((value, state.current_path, state.get_all_paths()))
+      for _ in state.yield_map_child_values(value, ignore_leaves=True):
+        pass
+    trav = daglish.BasicTraversal(visit, root)
+    visit(root, trav.initial_state())
+    rebuilt = daglish.MemoizedTraversal.run(lambda v, s: s.map_children(v), root)
+    def ident(paths, value):
+      return (yield)
+    legacy_rebuilt = daglish_legacy.memoized_traverse(ident, root)
+    legacy_all = []
+    def twa(all_paths, current_path, value):
+      legacy_all.append((value, current_path, list(all_paths)))
+      return (yield)
+    daglish_legacy.traverse_with_all_paths(twa, root)
+  except Exception as e:  # pylint: disable=broad-except
+    import traceback
+    where = traceback.extract_tb(e.__traceback__)[1].line if len(traceback.extract_tb(e.__traceback__)) > 1 else ""
+    res.failures.append(Failure(None, f"C08 {label}: a traversal of an acyclic structure raised {type(e).__name__}: "
+                                f"{e!s:.120} (at: {where})", {"label": label, "root": repr(root)[:1500]}))
+    return
 
   # ---- oracle: the property text
   check_sound(basic, root, "iterate(memoized=False)", problems)
@@ -440,6 +447,17 @@ def run(tier: str, seed: int) -> Result:
                          lambda: fdl.Config(l2.fd, x=t, y=(t, [0]), z=root)])()
       res.count("planted-nested-constant-tuple")
     one_case(rng, res, intern, stream, root, f"dag#{i}")
+  for i in range(20 if tier == "quick" else 300):
+    # positional arguments with a GAP: a later positional-only / variadic slot is set, an earlier defaulted one is not
+    shared = rng.choice([[1, 2], fdl.Config(l2.fa, 1)])
+    g1 = fdl.Config(l2.fh, 0)
+    del g1[0]
+    g1[1] = shared
+    g2 = rng.choice([fdl.Config, fdl.Partial])(l2.fh)
+    g2[1] = [shared]
+    root = rng.choice([lambda: g1, lambda: fdl.Config(l2.fd, x=g1, y=[g2, shared]), lambda: [g2, (g1, shared)]])()
+    res.count("positional-gap-root")
+    one_case(rng, res, intern, stream, root, f"gap#{i}")
   for i in range(60 if tier == "quick" else 1500):
     cyclic_case(rng, res, cyc, intern, f"cyc#{i}")
   for i in range(10 if tier == "quick" else 200):
